@@ -537,10 +537,13 @@ def judge(ctx, lib, c, it):
         if c["g_start"] is not None and not c["exact_start"] and abs(c["g_start"]) < 1e-14 * (1 + g_amp) and c["mode"] != "near":
             ctx.skip("rejected: g(t0) indistinguishable from 0 for a non-exact start")
             return
-        if c["exact_start"]:
+        if c["exact_start"] or c["mode"] == "near":
+            # also for a start within 1e-13 of the surface: with a small slope at t0, g can cross and come back inside the first
+            # scan cell (thorough sweep, seed 3: Kepler, g = vy - c, extremum 5e-6 above the level 3e-3 after the start) — two zeros
+            # closer than any sampling resolves, which the statement excludes
             s0 = sc.slope(t0 + 1e-6)
             if abs(s0) < 0.05 * gdot or np.sign(sc.g[1]) != np.sign(s0):
-                ctx.skip("rejected: tangential start on the surface")
+                ctx.skip("rejected: tangential start on / next to the surface")
                 return
         if sc.ext_min < max(50 * err_g, 2 * gdd * sc.dt ** 2, 1e-5 * g_amp):
             ctx.skip("rejected: nearly tangential extremum of g")
